@@ -34,6 +34,9 @@ var JSONLayouts = []WS{
 	{Name: "lines-lf", NL: "\n", Trail: "\n"},
 	{Name: "lines-crlf", NL: "\r\n", Lead: "\r\n", Trail: "\r\n"},
 	{Name: "lines-cr", NL: "\r"},
+	// a line break of either kind around every structural token (also between a key and its colon)
+	{Name: "crlf-around-every-token", Pad: "\r\n"},
+	{Name: "cr-around-every-token", Pad: "\r"},
 }
 
 func (v JV) Render(ws WS) string {
